@@ -2,7 +2,7 @@
 import re
 from .. import cfg as C
 from ..flow import Sccp, seed_after_call, I, V, ExprBuilder, walk, is_call, mentions_call, mentions_field, show, \
-    TRY_BRANCH, FROM_RESIDUAL, cond_switches, value_set
+    TRY_BRANCH, FROM_RESIDUAL, cond_switches, value_set, X
 from ..graph import CallGraph, classify_result, field_rw, field_rw_deep
 from ..facts import op_place, place_key
 
@@ -246,32 +246,73 @@ def err_rule(ctx, r):
 
 
 def interrupted_rule(ctx, r):
-    """Interrupted is retried only in fill_multi_line_buffer_from_reader."""
+    """Every Read::read of the searcher's fill paths: an Interrupted error leads back to the read (nothing was transferred,
+    the results may not depend on it — C02), every other error is returned to the caller and never swallowed (C16)."""
     facts = ctx.facts
     KIND = "std::io::error::Error::kind"
-    users = []
-    for f in facts.fns.values():
-        if f.path.startswith("grep_searcher::") and "::tests::" not in f.path:
-            if f.calls_to(KIND):
-                users.append(f.path)
-    allowed = {"grep_searcher::searcher::Searcher::fill_multi_line_buffer_from_reader"}
-    for u in sorted(users):
-        root = u.split("::{closure")[0]
-        if root in allowed:
-            r.ok(u, "the documented retry loop inspects ErrorKind", fn=u)
-        else:
-            r.bad(u, "io::Error::kind() is inspected in %s: read errors must surface, only the multi-line "
-                  "fill loop may retry Interrupted" % u, fn=u)
-    f = facts.fn("grep_searcher::line_buffer::LineBuffer::fill")
-    reads = f.calls_to("std::io::Read::read")
-    if not reads:
-        r.bad("LineBuffer::fill|read", "anchor-missing: no Read::read call in LineBuffer::fill", fn=f)
-    for i, c in enumerate(reads):
-        v, d = classify_result(f, c)
-        if v == "try":
-            r.ok("LineBuffer::fill|read|%d" % i, "read error propagated with ?", fn=f)
-        else:
-            r.bad("LineBuffer::fill|read|%d" % i, "read result is %s, not propagated" % v, fn=f, loc=c.loc)
+
+    def is_intr_test(e):
+        if not (isinstance(e, X) and e.k == "call" and e[1] in ("core::cmp::PartialEq::eq", "core::cmp::PartialEq::ne")):
+            return False
+        return mentions_call(e, KIND) and any(x.k == "const" and x[2] and "Interrupted" in str(x[2]) for x in walk(e))
+    sites = 0
+    for f in facts.fns_in("grep_searcher::"):
+        if "::tests::" in f.path or f.kind == "closure":
+            continue
+        reads = f.calls_to("std::io::Read::read")
+        if not reads:
+            continue
+        eb = ExprBuilder(f)
+        sw = []
+        for bb, te, fe, e in cond_switches(f, is_intr_test, eb):
+            if e[1].endswith("::ne"):
+                te, fe = fe, te
+            sw.append((bb, te, fe, e))
+        for i, c in enumerate(reads):
+            sites += 1
+            key = "%s|read|%d" % (f.path.split("grep_searcher::", 1)[1], i)
+            s_ = seed_after_call(f, c, V("Err", None), stop_blocks={c.bb})
+            tests = [x for x in sw if x[0] in s_.exec_blocks]
+            if not tests:
+                r.bad("retry|" + key, "an Interrupted read in %s is reported as a failed search: nothing was transferred, a retry is "
+                      "due; the reader strategy otherwise answers differently from a slice of the same bytes" % f.path, fn=f, loc=c.loc,
+                      construct="interrupted")
+                vals = set()
+                for v_ in s_.ret_values.values():
+                    vals |= set(value_set(v_)) if v_ is not None else {None}
+                if vals and all(v_ is not None and v_[1] == "Err" for v_ in vals):
+                    r.ok("propagate|" + key, "a read error is returned", fn=f)
+                else:
+                    r.bad("propagate|" + key, "a read error is swallowed in %s" % f.path, fn=f, loc=c.loc, construct="read-error")
+                continue
+            # back to the read; a return on the way is tolerated only behind another call (its own failure, e.g.
+            # ensure_capacity()?), never as the direct answer to the interrupted read
+            callbbs = {x.bb for x in f.calls() if not x.path.startswith("core::ptr::drop_in_place")}
+            retried = all(c.bb in C.reach(f, [te[1]]) and
+                          not [b_ for b_ in C.reach(f, [te[1]], stop_blocks=callbbs | {c.bb})
+                               if f.blocks[b_]["term"]["k"] == "return"]
+                          for bb, te, fe, e in tests)
+            if retried:
+                r.ok("retry|" + key, "Err(Interrupted) ⇒ back to the read, no return on the way", fn=f)
+            else:
+                r.bad("retry|" + key, "the Interrupted edge of the read in %s does not lead back to the read" % f.path, fn=f, loc=c.loc,
+                      construct="interrupted")
+            prop = True
+            for bb, te, fe, e in tests:
+                s2 = Sccp(f, stop_blocks={c.bb}).run([(fe[1], dict(s_.env_in.get(bb, {})))])
+                vals = set()
+                for v_ in s2.ret_values.values():
+                    vals |= set(value_set(v_)) if v_ is not None else {None}
+                if not vals or any(v_ is None or v_[1] != "Err" for v_ in vals) or c.bb in s2.exec_blocks:
+                    prop = False
+            if prop:
+                r.ok("propagate|" + key, "any other read error is returned", fn=f)
+            else:
+                r.bad("propagate|" + key, "a read error other than Interrupted is swallowed or retried in %s" % f.path, fn=f, loc=c.loc,
+                      construct="read-error")
+    if sites < 2:
+        r.bad("sites", "anchor-missing: expected the two fill loops (LineBuffer::fill, fill_multi_line_buffer_from_reader), found %d "
+              "Read::read site(s)" % sites)
 
 
 def fwd_rule(ctx, r):
@@ -468,8 +509,8 @@ def run(ctx):
     with ctx.rule("C16.ERR", "no Result of an I/O / sink / config / matcher call in the searcher is dropped or swallowed",
                   floor=30, kind="USED/A10") as r:
         err_rule(ctx, r)
-    with ctx.rule("C16.INTR", "Interrupted is retried only in the multi-line fill loop; LineBuffer::fill propagates read errors",
-                  floor=2, kind="NOCALL") as r:
+    with ctx.rule("C16.INTR", "in both fill loops an Interrupted read is retried and every other read error is returned",
+                  floor=4, kind="NOCALL") as r:
         interrupted_rule(ctx, r)
     with ctx.rule("C16.FWD", "Sink forwarders for &mut S and Box<S> return the inner result unchanged",
                   floor=12, kind="PARITY") as r:
